@@ -1559,7 +1559,10 @@ def process_iter(attrs=None, ad_value=None):
         ls = sorted(list(pmap.items()) + list(dict.fromkeys(new_pids).items()))
         for pid, proc in ls:
             try:
-                if proc is None:  # new process
+                if proc is None or proc._pid_reused:
+                    # new process, or a cached instance that is_running()
+                    # found to be stale (PID reused) after this or
+                    # another iteration had copied the cache
                     proc = add(pid)
                 if attrs is not None:
                     proc.info = proc.as_dict(attrs=attrs, ad_value=ad_value)
